@@ -487,7 +487,7 @@ def main(tier, seed, replay, jobs, scale):
         import json
         cases = [tuple(json.load(open(replay))["replay"]["case"])]
     else:
-        n = int((90 if tier == "quick" else 300) * scale)
+        n = int((90 if tier == "quick" else 3000) * scale)
         cases = [(seed, i, tier) for i in range(n)]
         # arrays on which an earlier fix left NAME.unrecoverable files
         cases += [(seed, 100000 + i, tier) for i in range(max(12, n // 3))]
